@@ -4,6 +4,7 @@
    of Gen/LeafObb.v (regenerated from /repo on every run); the stateful skeletons (heap of definitions with
    reference counts, conversion cache) are in Model/Obb.v. *)
 From RV Require Import Model.Base Model.GeomPrims Model.StylePrims Model.ObbPrims Gen.LeafObb Model.Obb Proofs.Obb.
+From RV Require Import Model.ObbFilter Proofs.ObbFilter.
 Local Open Scope Q_scope.
 
 (* --- geometry ----------------------------------------------------------------------------- *)
@@ -196,3 +197,120 @@ Example C18_nv_clip_cacheable :
   chain_cacheable f18_chain = false /\
   chain_cacheable [ {| ce_id := 1; ce_units := UserSpaceOnUse; ce_ts := ts_identity |} ] = true.
 Proof. split; reflexivity. Qed.
+
+(* === extension round 4: filters and masks =================================================== *)
+(* --- primitiveUnits=objectBoundingBox: the number attributes (stdDeviation, dx/dy, radius, scale) ----------- *)
+(* `resolve_param` is built from the SOURCE-DERIVED slices of filter.rs (std_dev_scaled, offset_dx/dy, shadow_dx/dy,
+   displace_scale, morph_fix / morph_positive / morph_scaled, prim_scale).  For every box with area and every
+   attribute value: the stored numbers are those of the same primitive written in user space with its lengths
+   mapped through the box (x lengths * width, y lengths * height, displacement scale * mean).  feMorphology (since
+   4d36085 the radii are resolved BEFORE the zero fallbacks): every given radius without a negative component, zero
+   and one-zero radii included.  Guard = the known class below (radius absent or negative) *)
+Theorem C18_primitive_params_equiv : forall p B, 0 < rw B -> 0 < rh B -> KnownClass_morph_fallback p = false ->
+  rparam_eqb (resolve_param p (rw B, rh B)) (resolve_param (map_param p B) (1, 1)) = true.
+Proof. exact param_equiv. Qed.
+Print Assumptions C18_primitive_params_equiv.
+
+(* the class is real: radius="-1 3" on a 50x20 box gives (50, 20) (the box size), the mapped user-space radius="-50 60"
+   gives (1, 1); without a radius (50, 20) against (1, 1): the fallback value is the scale, not 1 *)
+Theorem C18_primitive_params_equiv_refuted :
+  exists p B, 0 < rw B /\ 0 < rh B /\ KnownClass_morph_fallback p = true /\
+    rparam_eqb (resolve_param p (rw B, rh B)) (resolve_param (map_param p B) (1, 1)) = false.
+Proof. exact morph_fallback_refuted. Qed.
+Print Assumptions C18_primitive_params_equiv_refuted.
+
+(* the former witness (radius "0 3" on a 50x20 box, repaired by 4d36085) now satisfies the equivalence: (1, 60) both *)
+Example C18_nv_morph_zero_fixed :
+  let B := {| rx := 10; ry := 10; rw := 50; rh := 20 |} in
+  KnownClass_morph_fallback (FP_morph (Some [0; 3])) = false /\
+  resolve_param (FP_morph (Some [0; 3])) (rw B, rh B) = RP_morph 1 (3 * 20) /\
+  resolve_param (map_param (FP_morph (Some [0; 3])) B) (1, 1) = RP_morph 1 (3 * 20 * 1).
+Proof. vm_compute. repeat split; reflexivity. Qed.
+
+(* stdDeviation: the (one or two) numbers times the box size, negative products clamped to 0 *)
+Theorem C18_std_dev_scaled : forall a b c sc,
+  let '(x, y) := std_dev_pair a b c in
+  fst (std_dev a b c sc) == (if Qleb 0 (x * sz_w sc) then x * sz_w sc else 0) /\
+  snd (std_dev a b c sc) == (if Qleb 0 (y * sz_h sc) then y * sz_h sc else 0).
+Proof. exact std_dev_spec. Qed.
+Print Assumptions C18_std_dev_scaled.
+
+(* every user of the list gets the parameters scaled by ITS box: the per-primitive parameters of collect_children
+   depend on the user only through prim_scale *)
+Theorem C18_primitive_params_per_user : forall units bbox region sc ps,
+  map rp_par (collect_loop units bbox region sc ps) =
+  map (fun p => resolve_param (fp_par p) sc) (firstn (length (collect_loop units bbox region sc ps)) ps).
+Proof. exact collect_loop_params. Qed.
+Print Assumptions C18_primitive_params_per_user.
+
+(* --- the cache of converted filters (filter.rs convert_url) --------------------------------------------------- *)
+(* for every document (an id names one filter element) and EVERY sequence of users with their boxes, starting from
+   the empty cache: each user gets the filter resolved for ITS box (region through checked_bbox_transform, primitives
+   through collect_children), and two results that carry the same id are the same definition: sharing happens only
+   through a cache hit, which needs filterUnits = primitiveUnits = userSpaceOnUse *)
+Theorem C18_filter_users : forall (taken : list N) (inD : felem -> Prop),
+  (forall f1 f2, inD f1 -> inD f2 -> fe_id f1 = fe_id f2 -> f1 = f2) ->
+  (forall f, inD f -> In (fe_id f) taken) ->
+  forall us ctr, Forall (fun p => inD (fst p)) us ->
+  let rs := fst (filter_users taken us {| fs_cache := []; fs_ctr := ctr |}) in
+  Forall2 (fun p r => match filter_resolve (fst p) (snd p) with
+                      | Some (rc, ps) => exists v, r = Some v /\ fv_rect v = rc /\ fv_prims v = ps
+                      | None => r = None
+                      end) us rs /\
+  (forall v1 v2, In (Some v1) rs -> In (Some v2) rs -> fv_id v1 = fv_id v2 -> v1 = v2).
+Proof. exact filter_users_shared. Qed.
+Print Assumptions C18_filter_users.
+
+Theorem C18_filter_resolve_user_space_box_free : forall f, filter_cacheable (fe_units f) (fe_punits f) = true ->
+  forall b, filter_resolve f b = filter_resolve f None.
+Proof. exact filter_resolve_indep. Qed.
+Print Assumptions C18_filter_resolve_user_space_box_free.
+
+(* --- the cache of converted masks (mask.rs convert; id chosen before the link is converted, mask_all) -------- *)
+Theorem C18_mask_users : forall (taken : list N) (inD : msrc -> Prop),
+  (forall e link, inD (e :: link) -> link = [] \/ inD link) ->
+  (forall e1 l1 e2 l2, inD (e1 :: l1) -> inD (e2 :: l2) -> me_id e1 = me_id e2 -> e1 :: l1 = e2 :: l2) ->
+  (forall e l, inD (e :: l) -> In (me_id e) taken) ->
+  forall us ctr, Forall (fun p => inD (fst p)) us ->
+    Forall2 (fun p r => match mask_expected (fst p) (snd p) with
+                        | Some l => exists v, r = Some v /\ mconv_vals v = l
+                        | None => r = None
+                        end) us (mask_users taken us {| ms_cache := []; ms_ctr := ctr |}).
+Proof.
+  intros taken inD H1 H2 H3 us ctr Hus.
+  exact (mask_users_ok taken inD H1 H2 H3 us _ (mcache_ok_empty inD ctr) Hus).
+Qed.
+Print Assumptions C18_mask_users.
+
+(* non-vacuity: a shared user-space filter (one definition, one id) next to an objectBoundingBox one (own id per user) *)
+Definition nv_blur : fprim := {| fp_kind := PK_Other; fp_x := None; fp_y := None; fp_w := None; fp_h := None;
+                                 fp_par := FP_blur (Some (1 # 8)) None None |}.
+Definition nv_f_user : felem := {| fe_id := 1; fe_units := UserSpaceOnUse; fe_punits := UserSpaceOnUse;
+                                   fe_rect := {| rx := 0; ry := 0; rw := 200; rh := 200 |}; fe_prims := [nv_blur] |}.
+Definition nv_f_obb : felem := {| fe_id := 2; fe_units := ObjectBoundingBox; fe_punits := ObjectBoundingBox;
+                                  fe_rect := {| rx := -(1 # 10); ry := -(1 # 10); rw := 12 # 10; rh := 12 # 10 |}; fe_prims := [nv_blur] |}.
+Example C18_nv_filter_users :
+  let b1 := Some {| rx := 10; ry := 10; rw := 40; rh := 80 |} in
+  let b2 := Some {| rx := 100; ry := 20; rw := 80; rh := 16 |} in
+  match fst (filter_users [1%N; 2%N] [(nv_f_user, b1); (nv_f_obb, b1); (nv_f_user, b2); (nv_f_obb, b2)] {| fs_cache := []; fs_ctr := 0 |}) with
+  | [Some a; Some b; Some c; Some d] =>
+      map fv_id [a; b; c; d] = [1%N; 2%N; 1%N; 3%N] /\ a = c /\
+      map rp_par (fv_prims b) = [RP_blur ((1 # 8) * 40) ((1 # 8) * 80)] /\ map rp_par (fv_prims d) = [RP_blur ((1 # 8) * 80) ((1 # 8) * 16)]
+  | _ => False
+  end.
+Proof. vm_compute. repeat split; reflexivity. Qed.
+
+Example C18_nv_mask_users :
+  match mask_users [1%N; 2%N] [(m18_chain, Some f18_b1); (m18_chain, Some f18_b2); (m18_chain, None)] {| ms_cache := []; ms_ctr := 0 |} with
+  | [Some [a1; a2]; Some [b1; b2]; Some [c1; c2]] =>
+      map mv_id [a1; a2; b1; b2; c1; c2] = [1%N; 2%N; 3%N; 4%N; 5%N; 6%N] /\
+      mv_content a2 = Some (Some (from_bbox f18_b1)) /\ mv_content b2 = Some (Some (from_bbox f18_b2)) /\
+      mv_content c2 = None                            (* no box: the objectBoundingBox mask masks everything *)
+  | _ => False
+  end.
+Proof. vm_compute. repeat split; reflexivity. Qed.
+
+Example C18_nv_param_regular :
+  KnownClass_morph_fallback (FP_morph (Some [1 # 16; 1 # 8])) = false /\
+  resolve_param (FP_shadow None (Some (1 # 4)) (Some (1 # 8)) None None) (40, 80) = RP_shadow (2 * 40) ((1 # 4) * 80) ((1 # 8) * 40) ((1 # 8) * 80).
+Proof. vm_compute. split; reflexivity. Qed.
